@@ -329,14 +329,15 @@ def coq_sub(t, erased):
     return "(SWrap SwBoxDyn %s)" % c if erased else c
 
 
-def coq_coll(t, erased):
+def coq_coll(t, erased, registry=False):
+    """registry=True: the root leaf is the `Registry` itself (records nothing; `try_close` answers are not modelled: C05)."""
     k = t["k"]
     if k == "leaf":
-        c = "(CLeaf %d %s)" % (t["id"], coq_beh(t["beh"]))
+        c = "(CLeaf %d (beh_registry (fun _ => true)))" % t["id"] if registry else "(CLeaf %d %s)" % (t["id"], coq_beh(t["beh"]))
     elif k == "layered":
-        c = "(CLayered %s %s)" % (coq_sub(t["s"], erased), coq_coll(t["c"], erased))
+        c = "(CLayered %s %s)" % (coq_sub(t["s"], erased), coq_coll(t["c"], erased, registry))
     else:
-        inner = coq_coll(t["c"], erased)
+        inner = coq_coll(t["c"], erased, registry)
         if erased and t["w"] == "box":
             c = inner
         else:
